@@ -108,7 +108,7 @@ func (h *Host) HostCall(pc ProgramCounter, instrCount uint64) (psi_result Psi_H_
 
 		// reason.Reason == HOST_CALL
 		var input OmegaInput
-		input.Operation = OperationType(exitReason.GetHostCallID())
+		input.Operation = OperationType(exitReason.GetHostCallIndex())
 		input.VM = &VMState{
 			Registers: &h.Interpreter.Registers,
 			Memory:    h.Interpreter.Memory,
